@@ -142,7 +142,9 @@ class Scenario(sc.SockWorld):
         elif op == "send":
             k = len(self.calls)
             pol = self.p.get("pol", POL)
-            self.submit(self.cat[k % len(self.cat)], pol[k % len(pol)])
+            idx = self.p.get("cat_idx")            # e.g. [0, 1, 0, 0]: the same message submitted again and again
+            entry = self.cat[(idx[k % len(idx)] if idx else k) % len(self.cat)]
+            self.submit(entry, pol[k % len(pol)])
         else:
             raise explorer.HarnessError(f"unknown action {a!r}")
 
@@ -239,17 +241,19 @@ def run(tier, seed, part=None):
                        "are enumerated without deviations"]
     if tier == "quick":
         plans = [({"max_send": 4}, 8, 1), ({"max_send": 3, "pausing": True, "adv": False}, 7, 1),
-                 ({"max_send": 2, "pausing": True, "pol": ["I", "C"]}, 6, 1)]
+                 ({"max_send": 2, "pausing": True, "pol": ["I", "C"]}, 6, 1),
+                 ({"max_send": 4, "cat_idx": [0, 1, 0, 0], "pol": ["I"], "adv": False}, 7, 0)]
         cap = 40
     else:
-        plans = [({"max_send": 6}, 10, 2), ({"max_send": 4, "pausing": True}, 9, 2), ({"max_send": 3, "pausing": True, "pol": ["I", "C", "C"]}, 9, 2)]
+        plans = [({"max_send": 6}, 10, 2), ({"max_send": 4, "pausing": True}, 9, 2), ({"max_send": 3, "pausing": True, "pol": ["I", "C", "C"]}, 9, 2),
+                 ({"max_send": 5, "cat_idx": [0, 1, 0, 0, 1], "pol": ["I", "I", "N"]}, 9, 1)]
         cap = 600
     for gen in (4, 5):
         for extra, depth, dev in plans:
             params = dict(gen=gen, **extra)
             res = explorer.explore(SPEC, params, depth, dev, time_cap=cap, seed=seed,
                                    label=f"at{gen}/{extra}/d{depth}/v{dev}")
-            chk.add_explorer(f"at{gen}" + ("/pausing" if extra.get("pausing") else ""), SPEC, params, res,
+            chk.add_explorer(f"at{gen}" + ("/pausing" if extra.get("pausing") else "") + ("/repeated-message" if extra.get("cat_idx") else ""), SPEC, params, res,
                              {"depth": depth, "deviations": dev, **extra})
     chk.add_audit(SPEC, {"gen": 4, "max_send": 3}, 5, 1, limit=3000 if tier == "thorough" else 600)
     chk.add_audit(SPEC, {"gen": 5, "max_send": 3, "pausing": True, "adv": False}, 5, 1, limit=3000 if tier == "thorough" else 600)
